@@ -20,6 +20,7 @@ type callee struct {
 	clo     *closureInfo
 	isIface bool
 	recvT   types.Type
+	assumesDone bool
 	skipRecv string // receiver parameter whose requires are established at bind/construction time
 }
 
@@ -64,8 +65,8 @@ func (vc *FuncVC) lookupIfaceContract(recvT types.Type, m *types.Func) (*Contrac
 }
 
 func (vc *FuncVC) execCall(s *State, cc *ssa.CallCommon, site ssa.Instruction, pos token.Pos) []Term {
-	ord := vc.callOrd[site]
-	name := vc.callKeyOf[site]
+	ord := vc.cur.callOrd[site]
+	name := vc.cur.callKeyOf[site]
 	if name == "" {
 		name = vc.calleeName(cc)
 	}
@@ -202,9 +203,14 @@ func (vc *FuncVC) callStatic(s *State, f *ssa.Function, ci *closureInfo, args []
 		}
 	}
 	cl := &callee{name: name, c: c, ckey: key, fn: f, sig: f.Signature, pnames: pn, args: args, clo: ci}
+	if c == nil && vc.canInline(f) {
+		return vc.inlineCall(s, f, ci, args, name, pos)
+	}
 	if c != nil && c.Dispatch != "" {
 		return vc.dispatch(s, cl, ord, site, pos)
 	}
+	vc.siteAssumes(s, cl, ord, pos)
+	cl.assumesDone = true
 	if key == fnKey(vc.fn) || (c != nil && c.Dec != nil && c.Dec.active(vc.prop) && vc.sameRecursionGroup(f)) {
 		vc.recursionCheck(s, cl, pos, ord)
 	}
@@ -251,13 +257,17 @@ func (vc *FuncVC) applyContract(s *State, cl *callee, ord int, site ssa.Instruct
 		}
 		return res
 	}
+	if !cl.assumesDone {
+		cl.assumesDone = true
+		vc.siteAssumes(s, cl, ord, pos)
+	}
 	siteKey := fmt.Sprintf("call %s#%d", cl.name, ord)
 	var ss *SiteSpec
-	if vc.c != nil {
-		ss = vc.c.Sites[siteKey]
+	if vc.cur.c != nil {
+		ss = vc.cur.c.Sites[siteKey]
 		if ss == nil {
 			// allow a dot-boundary suffix of the callee name: "call Database.SetInbox#1"
-			for k, v := range vc.c.Sites {
+			for k, v := range vc.cur.c.Sites {
 				if !strings.HasPrefix(k, "call ") || !strings.HasSuffix(k, fmt.Sprintf("#%d", ord)) {
 					continue
 				}
@@ -307,6 +317,9 @@ func (vc *FuncVC) applyContract(s *State, cl *callee, ord int, site ssa.Instruct
 		vc.bindFreeVarsCaller(e, s, cl.fn, cl.clo)
 	}
 	vc.addCallVars(e, cl)
+	mname := lastSeg(cl.name)
+	e.vars["$method"] = strLit(mname)
+	e.vars["$prop"] = strLit(strings.TrimPrefix(strings.TrimPrefix(mname, "Get"), "Set"))
 	for i, r := range c.Req {
 		if !r.active(vc.prop) {
 			continue
@@ -329,16 +342,31 @@ func (vc *FuncVC) applyContract(s *State, cl *callee, ord int, site ssa.Instruct
 	}
 	old := s.clone()
 	var res []Term
-	if c.Pure && nres >= 1 {
+	if c.Returns != nil && nres == 1 {
+		er := vc.newEnv(s, s, pos)
+		for k, v := range e.vars {
+			er.vars[k] = v
+		}
+		t := vc.tr(er, c.Returns.E)
+		rt := sig.Results().At(0).Type()
+		if t.Sort == nilSort {
+			t = vc.ss.zero(vc.ss.sortOf(rt))
+		}
+		t.GoT = rt
+		vc.typeFacts(s.pc, t, rt)
+		res = []Term{t}
+	} else if c.Pure && nres >= 1 {
 		fname := "m!" + smtIdent(lastSeg(cl.name))
 		if !cl.isIface && cl.fn != nil {
 			fname = "f!" + smtIdent(cl.ckey)
 		}
 		var as []Term
 		var sorts []string
-		ash := vc.get(s, "G:ASH", "Int")
-		as = append(as, ash)
-		sorts = append(sorts, "Int")
+		for _, dep := range pureDeps(c) {
+			as = append(as, vc.get(s, "G:"+dep, "Int"))
+			sorts = append(sorts, "Int")
+		}
+		vc.eng.notePure(lastSeg(cl.name), c)
 		for _, a := range cl.args {
 			as = append(as, a)
 			sorts = append(sorts, a.Sort)
@@ -388,6 +416,31 @@ func (vc *FuncVC) addCallVars(e *env, cl *callee) {
 	}
 }
 
+// siteAssumes applies "at call X#n: assume! ..." before the callee's preconditions are checked.
+func (vc *FuncVC) siteAssumes(s *State, cl *callee, ord int, pos token.Pos) {
+	if vc.cur.c == nil {
+		return
+	}
+	for k, ss := range vc.cur.c.Sites {
+		if !strings.HasPrefix(k, "call ") || !strings.HasSuffix(k, fmt.Sprintf("#%d", ord)) {
+			continue
+		}
+		short := strings.TrimSuffix(strings.TrimPrefix(k, "call "), fmt.Sprintf("#%d", ord))
+		if short != cl.name && !strings.HasSuffix(cl.name, "."+short) && !strings.HasSuffix(cl.name, "/"+short) {
+			continue
+		}
+		ce := vc.callerEnv(s, pos)
+		vc.addCallVars(ce, cl)
+		for _, a := range ss.Assumes {
+			if a.active(vc.prop) && !a.post {
+				vc.assume(s.pc, vc.tr(ce, a.E))
+				vc.assumedUsed["assume! in "+vc.key+" at "+k+": "+a.Src] = true
+				vc.sitesUsed[k] = true
+			}
+		}
+	}
+}
+
 // siteClauses applies the caller's ghost updates and assumptions for a call site.
 func (vc *FuncVC) siteClauses(s *State, ss *SiteSpec, siteKey string, cl *callee, res []Term, pos token.Pos) {
 	if ss == nil {
@@ -399,9 +452,9 @@ func (vc *FuncVC) siteClauses(s *State, ss *SiteSpec, siteKey string, cl *callee
 		ce.vars[fmt.Sprintf("$res%d", i)] = r
 	}
 	for _, a := range ss.Assumes {
-		if a.active(vc.prop) {
+		if a.active(vc.prop) && a.post {
 			vc.assume(s.pc, vc.tr(ce, a.E))
-			vc.assumedUsed["assume! in "+vc.key+" at "+siteKey+": "+a.Src] = true
+			vc.assumedUsed["assume! (after the call) in "+vc.key+" at "+siteKey+": "+a.Src] = true
 		}
 	}
 	for _, g := range ss.Ghost {
@@ -581,43 +634,43 @@ func (vc *FuncVC) appendOp(s *State, cc *ssa.CallCommon, args []Term, pos token.
 // defers
 
 func (vc *FuncVC) deferIndex(d *ssa.Defer) int {
-	for i, x := range vc.deferSites {
+	for i, x := range vc.cur.deferSites {
 		if x == d {
 			return i
 		}
 	}
-	vc.deferSites = append(vc.deferSites, d)
-	return len(vc.deferSites) - 1
+	vc.cur.deferSites = append(vc.cur.deferSites, d)
+	return len(vc.cur.deferSites) - 1
 }
 
 func (vc *FuncVC) deferInstr(s *State, d *ssa.Defer) {
 	k := vc.deferIndex(d)
-	if vc.deferInLoop[d] {
+	if vc.cur.deferInLoop[d] {
 		vc.deferLoop(s, d, k)
 		return
 	}
-	vc.set(s, fmt.Sprintf("D:%d", k), tTrue)
-	vc.noteWrite(fmt.Sprintf("D:%d", k))
+	vc.set(s, fmt.Sprintf("D:%s%d", vc.cur.prefix, k), tTrue)
+	vc.noteWrite(fmt.Sprintf("D:%s%d", vc.cur.prefix, k))
 	if d.Call.IsInvoke() {
-		vc.set(s, fmt.Sprintf("DA:%d:recv", k), vc.val(s, d.Call.Value))
+		vc.set(s, fmt.Sprintf("DA:%s%d:recv", vc.cur.prefix, k), vc.val(s, d.Call.Value))
 	} else if _, isFn := d.Call.Value.(*ssa.Function); !isFn {
 		if _, isB := d.Call.Value.(*ssa.Builtin); !isB {
-			vc.set(s, fmt.Sprintf("DA:%d:recv", k), vc.val(s, d.Call.Value))
+			vc.set(s, fmt.Sprintf("DA:%s%d:recv", vc.cur.prefix, k), vc.val(s, d.Call.Value))
 		}
 	}
 	for i, a := range d.Call.Args {
-		vc.set(s, fmt.Sprintf("DA:%d:%d", k, i), vc.val(s, a))
+		vc.set(s, fmt.Sprintf("DA:%s%d:%d", vc.cur.prefix, k, i), vc.val(s, a))
 	}
 }
 
 func (vc *FuncVC) runDefers(s *State, rd *ssa.RunDefers) {
-	for k := len(vc.deferSites) - 1; k >= 0; k-- {
-		d := vc.deferSites[k]
-		if vc.deferInLoop[d] {
+	for k := len(vc.cur.deferSites) - 1; k >= 0; k-- {
+		d := vc.cur.deferSites[k]
+		if vc.cur.deferInLoop[d] {
 			vc.runDeferLoop(s, d, k, rd.Pos())
 			continue
 		}
-		flag, ok := s.vars[fmt.Sprintf("D:%d", k)]
+		flag, ok := s.vars[fmt.Sprintf("D:%s%d", vc.cur.prefix, k)]
 		if !ok || flag.S == "false" {
 			continue
 		}
@@ -639,15 +692,15 @@ func (vc *FuncVC) runDefers(s *State, rd *ssa.RunDefers) {
 
 func (vc *FuncVC) execDeferred(s *State, d *ssa.Defer, k int) {
 	cc := &d.Call
-	ord := vc.callOrd[d]
-	name := vc.callKeyOf[d]
+	ord := vc.cur.callOrd[d]
+	name := vc.cur.callKeyOf[d]
 	var args []Term
 	for i := range cc.Args {
-		args = append(args, s.vars[fmt.Sprintf("DA:%d:%d", k, i)])
+		args = append(args, s.vars[fmt.Sprintf("DA:%s%d:%d", vc.cur.prefix, k, i)])
 	}
 	pos := d.Pos()
 	if cc.IsInvoke() {
-		recv := s.vars[fmt.Sprintf("DA:%d:recv", k)]
+		recv := s.vars[fmt.Sprintf("DA:%s%d:recv", vc.cur.prefix, k)]
 		c, ckey := vc.lookupIfaceContract(cc.Value.Type(), cc.Method)
 		sig := cc.Method.Type().(*types.Signature)
 		pn := []string{"this"}
@@ -664,7 +717,7 @@ func (vc *FuncVC) execDeferred(s *State, d *ssa.Defer, k int) {
 	case *ssa.Function:
 		vc.callStatic(s, f, nil, args, name, ord, d, pos)
 	case *ssa.MakeClosure:
-		t := s.vars[fmt.Sprintf("DA:%d:recv", k)]
+		t := s.vars[fmt.Sprintf("DA:%s%d:recv", vc.cur.prefix, k)]
 		vc.callStatic(s, f.Fn.(*ssa.Function), vc.closures[t.S], args, name, ord, d, pos)
 	case *ssa.Builtin:
 		// e.g. defer close(ch)
@@ -691,7 +744,7 @@ func (vc *FuncVC) deferLoop(s *State, d *ssa.Defer, k int) {
 	du := vc.get(s, "G:deferredUnlock", "(Array String Bool)")
 	key := T("String", fmt.Sprintf("(str %s)", id.S))
 	if vc.prop == "C09" || vc.prop == "C08" {
-		vc.oblige("pre", fmt.Sprintf("pre:deferred-in-loop.%s#%d.once", vc.callKeyOf[d], vc.callOrd[d]), "an Unlock of this id is not already pending", d.Pos(), s.pc, not(app("Bool", "select", du, key)))
+		vc.oblige("pre", fmt.Sprintf("pre:deferred-in-loop.%s#%d.once", vc.cur.callKeyOf[d], vc.cur.callOrd[d]), "an Unlock of this id is not already pending", d.Pos(), s.pc, not(app("Bool", "select", du, key)))
 	}
 	vc.deferKeys = append(vc.deferKeys, key)
 	vc.set(s, "G:deferredUnlock", app("(Array String Bool)", "store", du, key, tTrue))
@@ -712,7 +765,7 @@ func (vc *FuncVC) runDeferLoop(s *State, d *ssa.Defer, k int, pos token.Pos) {
 	if vc.prop == "C09" || vc.prop == "C08" {
 		held := vc.get(s, "G:held", "(Array String Bool)")
 		f := T("Bool", fmt.Sprintf("(forall ((k!q String)) (=> (select %s k!q) (select %s k!q)))", du.S, held.S))
-		vc.oblige("pre", fmt.Sprintf("pre:deferred-in-loop.%s#%d.held", vc.callKeyOf[d], vc.callOrd[d]), "every pending deferred Unlock(k) has held[k]", pos, s.pc, f)
+		vc.oblige("pre", fmt.Sprintf("pre:deferred-in-loop.%s#%d.held", vc.cur.callKeyOf[d], vc.cur.callOrd[d]), "every pending deferred Unlock(k) has held[k]", pos, s.pc, f)
 		nh := vc.freshConst("held_after_defers", "(Array String Bool)")
 		vc.assume(s.pc, T("Bool", fmt.Sprintf("(=> (= %s %s) (= %s emp))", held.S, du.S, nh.S)))
 		vc.assume(s.pc, T("Bool", fmt.Sprintf("(=> (= %s emp) (= %s %s))", du.S, nh.S, held.S)))
@@ -783,4 +836,99 @@ func mentions(x Expr, name string) bool {
 		return mentions(n.Body, name)
 	}
 	return false
+}
+
+func pureDeps(c *Contract) []string {
+	if c != nil && len(c.PureDeps) > 0 {
+		return c.PureDeps
+	}
+	return []string{"ASH", "ASHP"}
+}
+
+// canInline: a function of the repository that has a body, no contract, and is not already being inlined.
+func (vc *FuncVC) canInline(f *ssa.Function) bool {
+	if len(f.Blocks) == 0 || f.Pkg == nil && f.Parent() == nil {
+		return false
+	}
+	pkg := f.Pkg
+	for p := f; pkg == nil && p != nil; p = p.Parent() {
+		pkg = p.Pkg
+	}
+	if pkg == nil || !strings.HasPrefix(pkg.Pkg.Path(), modPrefix) {
+		return false
+	}
+	if f == vc.fn {
+		return false
+	}
+	for _, g := range vc.stack {
+		if g == f {
+			return false
+		}
+	}
+	return len(vc.stack) < 6
+}
+
+// inlineCall verifies through the body of a contract-less repository function: its blocks are
+// executed in place, the states at its returns are merged, and execution continues in the caller.
+func (vc *FuncVC) inlineCall(s *State, f *ssa.Function, ci *closureInfo, args []Term, name string, pos token.Pos) []Term {
+	fr := vc.frameOf(f, nil, true)
+	vc.inlinedFns[fnKey(f)] = true
+	saved := vc.cur
+	savedBlock := vc.curBlock
+	vc.cur = fr
+	vc.stack = append(vc.stack, f)
+	fr.rets = nil
+	for i, p := range f.Params {
+		if i < len(args) {
+			t := args[i]
+			t.GoT = p.Type()
+			vc.regs[p] = t
+		}
+	}
+	if ci != nil {
+		for i, fv := range f.FreeVars {
+			if i < len(ci.bindings) {
+				t := ci.bindings[i]
+				t.GoT = fv.Type()
+				vc.regs[fv] = t
+			}
+		}
+	}
+	st := s.clone()
+	// loops of the caller that contain this call site also contain everything the callee writes
+	vc.inlineOuter = append(vc.inlineOuter, savedBlockLoops{saved, savedBlock})
+	vc.runFrame(fr, st)
+	vc.inlineOuter = vc.inlineOuter[:len(vc.inlineOuter)-1]
+	vc.stack = vc.stack[:len(vc.stack)-1]
+	vc.cur = saved
+	vc.curBlock = savedBlock
+	nres := f.Signature.Results().Len()
+	if len(fr.rets) == 0 {
+		// the callee never returns (all paths panic): the caller's path ends here
+		s.pc = tFalse
+		var res []Term
+		for i := 0; i < nres; i++ {
+			res = append(res, vc.ss.zero(vc.ss.sortOf(f.Signature.Results().At(i).Type())))
+		}
+		return res
+	}
+	var outs []*State
+	for _, r := range fr.rets {
+		o := r.s.clone()
+		for i, t := range r.res {
+			o.vars[fmt.Sprintf("TMP:ret%d", i)] = t
+		}
+		outs = append(outs, o)
+	}
+	m := vc.merge(outs, "inl_"+f.Name())
+	var res []Term
+	for i := 0; i < nres; i++ {
+		t := m.vars[fmt.Sprintf("TMP:ret%d", i)]
+		t.GoT = f.Signature.Results().At(i).Type()
+		delete(m.vars, fmt.Sprintf("TMP:ret%d", i))
+		res = append(res, t)
+	}
+	s.vars = m.vars
+	s.pc = m.pc
+	return res
 }
